@@ -128,6 +128,10 @@ def stopping_games(draw, min_inner=1, max_inner=8, dyadic=None, rewards=REWARD_P
     finals = [ids[f] for f in finals_a]
     if len(finals) > 1:
         finals = list(draw(st.permutations(finals)))
+    if draw(st.integers(0, 5)) == 0:
+        # the same final state listed twice (or three times): a legal way to write the same set down
+        for _ in range(draw(st.integers(1, 2))):
+            finals.insert(draw(st.integers(0, len(finals))), draw(st.sampled_from(finals)))
     return dict(rewards=rew, players=players, transition_list=tl, final_states=finals)
 
 
@@ -161,6 +165,9 @@ def any_games(draw, min_states=3, max_states=8, max_actions=3, dyadic=True, max_
         rew.append(draw(st.sampled_from(rewards)))
     nf = draw(st.integers(1, min(3, n)))
     finals = draw(st.lists(st.integers(0, n - 1), min_size=nf, max_size=nf, unique=True))
+    if draw(st.integers(0, 5)) == 0:
+        for _ in range(draw(st.integers(1, 2))):
+            finals.insert(draw(st.integers(0, len(finals))), draw(st.sampled_from(finals)))
     return dict(rewards=rew, players=players, transition_list=tl, final_states=finals)
 
 
@@ -341,3 +348,41 @@ def cut_corridor_game(d, owner_cycle=(PR, P2), ascending=True):
         tl[s] = [(1, nxt)] if players[s] == PR else [("go", nxt)]
         rew[s] = 1 if i % 7 == 0 else 0
     return dict(rewards=rew, players=players, transition_list=tl, final_states=[1])
+
+
+def stale_zero_games():
+    """Planted: a Player 1 state s (low index) whose actions lead, through corridors of 1-3 steps, to
+    lotteries that reach the goal with masses around the 6th decimal (one rounds to 0.000001, the other
+    to 0).  The reachability iteration stops before those masses travel back to s, so s itself reports
+    exactly 0 while its successors report tiny positive values - and the reachability strategy of s is a
+    strict subset of its actions.  The action that is NOT reachability-optimal carries the larger reward."""
+    for m, k in ((8e-7, 1e-7), (6e-7, 4e-7), (9.9e-7, 4.9e-7), (5.1e-7, 0.0)):
+        for hops in (1, 2, 3):
+            for rich_first in (False, True):
+                players = [P1, P1]
+                tl = [None, None]
+                rew = [0, 0]
+
+                def corridor(mass, reward):
+                    first = len(players)
+                    for h in range(hops):
+                        players.append(PR)
+                        rew.append(reward if h == 0 else 0)
+                        tl.append([(1, len(players))])          # next state (filled in order)
+                    players.append(PR)                          # the lottery
+                    rew.append(0)
+                    tl.append(("lottery", mass))
+                    return first
+                a = corridor(m, 1)
+                b = corridor(k, 50)
+                goal, sink = len(players), len(players) + 1
+                players += [PR, PR]
+                rew += [0, 0]
+                tl += [[(1, goal)], [(1, sink)]]
+                for i, x in enumerate(tl):
+                    if isinstance(x, tuple):
+                        mass = x[1]
+                        tl[i] = [(mass, goal), (1 - mass, sink)] if mass else [(1, sink)]
+                tl[0] = [("win", goal), ("detour", 1)]
+                tl[1] = [("b", b), ("a", a)] if rich_first else [("a", a), ("b", b)]
+                yield dict(rewards=rew, players=players, transition_list=tl, final_states=[goal])
